@@ -103,6 +103,7 @@ class Frame:
         f.loopdepth = self.loopdepth
         f.trystack = list(self.trystack)
         f.iters = dict(self.iters)
+        f.is_gen = getattr(self, "is_gen", False)
         return f
 
 
@@ -150,6 +151,19 @@ def _toplevel_fillers(tree, name):
     return out
 
 
+def _is_generator(fnode):
+    """Does the function body (not nested functions) contain a yield?"""
+    stack = list(fnode.body)
+    while stack:
+        n = stack.pop()
+        if isinstance(n, (ast.Yield, ast.YieldFrom)):
+            return True
+        if isinstance(n, (ast.FunctionDef, ast.AsyncFunctionDef, ast.Lambda, ast.ClassDef)):
+            continue
+        stack.extend(ast.iter_child_nodes(n))
+    return False
+
+
 def assigned_names(stmts):
     out = []
 
@@ -182,6 +196,9 @@ def assigned_names(stmts):
                 for it in n.items:
                     if it.optional_vars is not None:
                         tgt(it.optional_vars)
+            elif isinstance(n, (ast.Yield, ast.YieldFrom)):
+                if "__yield__" not in out:
+                    out.append("__yield__")
             elif isinstance(n, ast.Call) and isinstance(n.func, ast.Attribute) and n.func.attr in (
                     "append", "extend", "update", "pop", "insert", "remove", "clear", "popleft", "appendleft", "reverse", "sort"):
                 base = n.func.value
@@ -319,6 +336,9 @@ class Evaluator:
             fr.env[a.vararg.arg] = args.get(a.vararg.arg, tm.param("*" + a.vararg.arg, tm.TUPLE))
         if a.kwarg:
             fr.env[a.kwarg.arg] = args.get(a.kwarg.arg, tm.param("**" + a.kwarg.arg, tm.DICT))
+        fr.is_gen = _is_generator(fi.node)
+        if fr.is_gen:
+            fr.env["__yield__"] = []  # a generator is summarised by the list of values it yields, in order
         self._stack.append(fi.qualname)
         prev_cls = self._cur_cls
         if fi.cls:
@@ -326,7 +346,7 @@ class Evaluator:
         try:
             done = self.block(fi.node.body, fr)
             if not done:
-                summary.exits.append(Exit(fr.guard, "return", None, fi.node, fi.qualname, facts=fr.facts))
+                summary.exits.append(Exit(fr.guard, "return", fr.env.get("__yield__") if fr.is_gen else None, fi.node, fi.qualname, facts=fr.facts))
         finally:
             self._stack.pop()
             self._cur_cls = prev_cls
@@ -398,8 +418,26 @@ class Evaluator:
     def stmt(self, st, fr):
         if isinstance(st, ast.Return):
             v = self.expr(st.value, fr) if st.value is not None else None
+            if getattr(fr, "is_gen", False):
+                v = fr.env.get("__yield__")  # `return` in a generator ends the sequence
             self.add_exit(fr, "return", v, st)
             return True
+        if isinstance(st, ast.Expr) and isinstance(st.value, (ast.Yield, ast.YieldFrom)) and getattr(fr, "is_gen", False):
+            cur = fr.env.get("__yield__", [])
+            if isinstance(st.value, ast.Yield):
+                item = self.expr(st.value.value, fr) if st.value.value is not None else None
+                if isinstance(cur, list):
+                    cur.append(item)
+                else:
+                    fr.env["__yield__"] = tm.lcat([cur, [item]])
+            else:
+                sub = self.expr(st.value.value, fr)
+                seq0 = _concrete_iter(sub) if not isinstance(sub, (dict, str)) else None
+                if isinstance(cur, list) and seq0 is not None:
+                    cur.extend(seq0)
+                else:
+                    fr.env["__yield__"] = tm.lcat([cur, sub])
+            return False
         if isinstance(st, ast.Raise):
             exc = "Exception"
             msg = None
@@ -537,6 +575,9 @@ class Evaluator:
             recv_node = e.func.value
             if meth in ("reverse", "sort") and not e.args and not (meth == "sort" and e.keywords):
                 recv0 = self.expr(recv_node, fr)
+                if isinstance(recv_node, ast.Name) and meth == "reverse" and (isinstance(recv0, bytes) or tm.tyof(recv0) == tm.BYTES):
+                    fr.env[recv_node.id] = recv0[::-1] if isinstance(recv0, bytes) else T("rev", (tm._fz(recv0),), tm.BYTES)
+                    return
                 if isinstance(recv0, list) or (isinstance(recv0, T) and tm.tyof(recv0) in (tm.LIST, tm.ANY) and isinstance(recv_node, ast.Name)):
                     # in-place list.reverse() / list.sort(): the name now holds the reversed / sorted list
                     if isinstance(recv0, list) and meth == "reverse":
@@ -574,6 +615,14 @@ class Evaluator:
                     recv.update(kw)
                     return
                 nm = _root_name(recv_node) if not isinstance(recv_node, ast.Name) else recv_node.id
+                if isinstance(recv_node, ast.Name) and (isinstance(recv, bytes) or tm.tyof(recv) == tm.BYTES) and meth in ("append", "extend") and args:
+                    # a bytearray: append(x) adds the byte x, extend(b) adds the bytes b
+                    if meth == "append":
+                        piece = bytes([args[0]]) if isinstance(args[0], int) and 0 <= args[0] < 256 else tm.i2b(args[0], 1, "big")
+                    else:
+                        piece = args[0]
+                    fr.env[nm] = tm.cat([recv, piece])
+                    return
                 if isinstance(recv_node, ast.Name):
                     if meth == "append":
                         fr.env[nm] = tm.lcat([recv, [args[0]]])
@@ -1663,6 +1712,15 @@ class Evaluator:
             if tm.tyof(a0) == tm.STR:
                 return a0
             return T("fmt", (tm._fz(a0), None, -1), tm.STR)  # str(x) and f"{x}" are one term
+        if n == "bytearray":  # modelled as a bytes value that is re-bound on mutation
+            if not pos:
+                return b""
+            if isinstance(a0, (bytes, bytearray)):
+                return bytes(a0)
+            if isinstance(a0, int) and not isinstance(a0, bool):
+                return bytes(a0)
+            if tm.tyof(a0) == tm.BYTES:
+                return a0
         if n == "bytes":
             seq0 = _concrete_iter(a0) if not isinstance(a0, (bytes, str, dict, range)) else (list(a0) if isinstance(a0, range) else None)
             if seq0 is not None and all(isinstance(x, int) and not isinstance(x, bool) for x in seq0):
@@ -1733,7 +1791,9 @@ class Evaluator:
                         return kw["default"]
             return T(n, tuple(sorted((tm._fz(p) for p in pos), key=tm.sortkey)), tm.INT)
         if n == "sum" and isinstance(a0, list):
-            return tm.add(a0)
+            return tm.add(a0 + list(pos[1:2]))
+        if n == "sum" and isinstance(a0, T) and a0.op == "map" and len(pos) == 1:
+            return T("sum", (a0,), tm.INT)  # the same term an accumulating `for` loop over these elements gives
         if n == "abs" and isinstance(a0, int):
             return abs(a0)
         if n == "pow":
